@@ -49,6 +49,15 @@ structure Smoother (K : Type) (S : Type) where
   applyPost : S → CRS K → Vec K → Vec K → Vec K → Vec K × Vec K
   apply     : S → CRS K → Vec K → Vec K
 
+section structural
+variable {K : Type}
+
+/-- every row `i` stores column `i` exactly once (duplicated off-diagonal entries are allowed) -/
+def diagOnceb (A : CRS K) : Bool :=
+  (List.range A.nrows).all (fun i => (A.row i).countP (fun cv => cv.1 == i) == 1)
+
+end structural
+
 section vec
 variable {K : Type} [Add K] [Mul K] [Zero K]
 
